@@ -171,12 +171,15 @@ def register(w):
         r, v = c.result, c["value_or_name"]
         if isinstance(r, VNone) or not isinstance(v, VRef):
             return z3.BoolVal(True)
-        return G.produces(c.ex, r.term, v.term)
+        nodes = c["nodes"]
+        k = z3.Int("k!pn")
+        in_nodes = z3.Exists([k], z3.And(0 <= k, k < nodes.length, z3.Select(nodes.arrs[0], k) == r.term))
+        return z3.And(G.produces(c.ex, r.term, v.term), in_nodes)
 
     w.add_contract(Contract(
         f"{MG}:_producer_node", params={"nodes": Seq(Ref(NODE)), "value_or_name": Opt(Ref(VALUE))}, ret=Opt(Ref(NODE)), uf=True, reads_heap=True, assumed=True,
         ensures=[("result_produces_value", post_producer)],
-        note="returns a node having the value among its outputs (value names are unique after NameFixPass), or None",
+        note="returns a node of `nodes` having the value among its outputs (value names are unique after NameFixPass), or None",
     ))
     return G
 
